@@ -439,6 +439,121 @@ theorem text_bin_equiv_pgm (iw ih im iw' ih' im' : Item) (w h m m' : Nat)
     parsePnm (80 :: 53 :: (iw'.render ++ ih'.render ++ im'.render ++ (cs ++ tail'))) := by
   rw [p2_layout iw ih im w h m sw sh sm its cs hs hl hwh tail, p5_layout iw' ih' im' w h m' sw' sh' sm' cs hl hwh tail']
 
+/-! ### The end-of-input variant for graymaps, and the headline over both endings -/
+
+/-- Text graymap whose last sample ends at EOF (no delimiter after the last token). -/
+theorem textGraymap_layout_eof (its : List Item) (cs : List UInt8)
+    (h : List.Forall₂ (fun it c => it.Spells u8Max c.toNat) its cs) (it : Item) (c : UInt8)
+    (hp : it.Spells u8Max c.toNat) :
+    textGraymap (cs.length + 1) (its.flatMap Item.render ++ it.renderEof) = .ok ((cs ++ [c]).map gray) := by
+  induction h with
+  | nil =>
+    have n1 := parseNum_renderEof it u8Max _ hp
+    simp [textGraymap, n1]
+  | @cons it' c' its' cs' hp' _ ih =>
+    have n1 := parseNum_render it' u8Max _ hp' (its'.flatMap Item.render ++ it.renderEof)
+    simp only [List.flatMap_cons, List.append_assoc, List.length_cons, textGraymap, n1, ih]
+    simp
+
+/-- **P2 whose last sample ends at EOF** decodes to the same image as with a trailing delimiter
+(`p2_layout` with the item list `its ++ [it]`): the image of the gray pixels `cs ++ [c]`. -/
+theorem p2_layout_eof (iw ih im : Item) (w h m : Nat) (sw : iw.Spells u32Max w) (sh : ih.Spells u32Max h)
+    (sm : im.Spells u16Max m) (its : List Item) (cs : List UInt8)
+    (hs : List.Forall₂ (fun it c => it.Spells u8Max c.toNat) its cs) (it : Item) (c : UInt8)
+    (hp : it.Spells u8Max c.toNat) (hl : cs.length + 1 = w * h) (hwh : w * h ≤ u32Max) :
+    parsePnm (80 :: 50 :: (iw.render ++ ih.render ++ im.render ++ (its.flatMap Item.render ++ it.renderEof))) =
+      decoded w h ((cs ++ [c]).map gray) := by
+  have hh := header_layout 80 50 .p2 (by decide) (by decide) iw ih im w h m sw sh sm
+    (its.flatMap Item.render ++ it.renderEof)
+  have c1 : ¬ w * h > u32Max := by omega
+  have ht := textGraymap_layout_eof its cs hs it c hp
+  rw [hl] at ht
+  simp only [parsePnm, hh, c1, if_false, pixelData, ht]
+  exact finish_decode w h _ ((cs ++ [c]).map gray) hwh (by simp; omega)
+    (by rw [List.take_of_length_le (by simp; omega)]) (by simp; omega)
+
+theorem forall₂_snoc {α β : Type} {R : α → β → Prop} {l₁ : List α} {l₂ : List β} {a : α} {b : β}
+    (h : List.Forall₂ R l₁ l₂) (hab : R a b) : List.Forall₂ R (l₁ ++ [a]) (l₂ ++ [b]) := by
+  induction h with
+  | nil => exact List.Forall₂.cons hab List.Forall₂.nil
+  | cons hxy _ ih => exact List.Forall₂.cons hxy ih
+
+/-- How a text file continues after the token of its last sample: one delimiter byte and then
+arbitrary trailing bytes, or the end of the input. -/
+inductive Ending where
+  | delim (tail : List UInt8)
+  | eof
+
+/-- The last sample of a text file under either ending. -/
+def Item.renderLast (it : Item) : Ending → List UInt8
+  | .delim tail => it.render ++ tail
+  | .eof => it.renderEof
+
+/-- **Text graymap (P2), non-empty image, either ending.** -/
+theorem p2_layout_ending (iw ih im : Item) (w h m : Nat) (sw : iw.Spells u32Max w) (sh : ih.Spells u32Max h)
+    (sm : im.Spells u16Max m) (its : List Item) (cs : List UInt8)
+    (hs : List.Forall₂ (fun it c => it.Spells u8Max c.toNat) its cs) (it : Item) (c : UInt8)
+    (hp : it.Spells u8Max c.toNat) (hl : cs.length + 1 = w * h) (hwh : w * h ≤ u32Max) (e : Ending) :
+    parsePnm (80 :: 50 :: (iw.render ++ ih.render ++ im.render ++ (its.flatMap Item.render ++ it.renderLast e))) =
+      decoded w h ((cs ++ [c]).map gray) := by
+  cases e with
+  | eof => exact p2_layout_eof iw ih im w h m sw sh sm its cs hs it c hp hl hwh
+  | delim tail =>
+    have hs' : List.Forall₂ (fun it c => it.Spells u8Max c.toNat) (its ++ [it]) (cs ++ [c]) :=
+      forall₂_snoc hs hp
+    have := p2_layout iw ih im w h m sw sh sm (its ++ [it]) (cs ++ [c]) hs' (by simp; omega) hwh tail
+    simpa [Item.renderLast, List.flatMap_append] using this
+
+/-- **Text pixmap (P3), non-empty image, either ending.** -/
+theorem p3_layout_ending (iw ih im : Item) (w h m : Nat) (sw : iw.Spells u32Max w) (sh : ih.Spells u32Max h)
+    (sm : im.Spells u16Max m) (ts : List (Item × Item × Item)) (px : List Pixel)
+    (hs : List.Forall₂ TripleSpells ts px) (t : Item × Item × Item) (p : Pixel) (hp : TripleSpells t p)
+    (hl : px.length + 1 = w * h) (hwh : w * h ≤ u32Max) (e : Ending) :
+    parsePnm (80 :: 51 :: (iw.render ++ ih.render ++ im.render ++
+        (ts.flatMap renderTriple ++ (t.1.render ++ t.2.1.render ++ t.2.2.renderLast e)))) = decoded w h (px ++ [p]) := by
+  cases e with
+  | eof => exact p3_layout_eof iw ih im w h m sw sh sm ts px hs t p hp hl hwh
+  | delim tail =>
+    have hs' : List.Forall₂ TripleSpells (ts ++ [t]) (px ++ [p]) :=
+      forall₂_snoc hs hp
+    have := p3_layout iw ih im w h m sw sh sm (ts ++ [t]) (px ++ [p]) hs' (by simp; omega) hwh tail
+    simpa [Item.renderLast, List.flatMap_append, renderTriple] using this
+
+/-- **text_bin_equiv, both format pairs, both endings.** For a non-empty image, the text encoding —
+P3 or P2, its last sample followed by a delimiter and arbitrary bytes *or* by the end of the input —
+and the binary encoding — P6 resp. P5 — of the same pixels decode to the same image, whatever
+whitespace, whitespace-preceded comments and number spellings separate the fields of either file.
+(Empty images have no last sample; `text_bin_equiv_ppm` / `text_bin_equiv_pgm` cover them.) -/
+theorem text_bin_equiv (iw ih im iw' ih' im' : Item) (w h m m' : Nat)
+    (sw : iw.Spells u32Max w) (sh : ih.Spells u32Max h) (sm : im.Spells u16Max m)
+    (sw' : iw'.Spells u32Max w) (sh' : ih'.Spells u32Max h) (sm' : im'.Spells u16Max m')
+    (hwh : w * h ≤ u32Max) (e : Ending) (tail' : List UInt8) :
+    (∀ (ts : List (Item × Item × Item)) (px : List Pixel) (t : Item × Item × Item) (p : Pixel),
+      List.Forall₂ TripleSpells ts px → TripleSpells t p → px.length + 1 = w * h →
+      parsePnm (80 :: 51 :: (iw.render ++ ih.render ++ im.render ++
+          (ts.flatMap renderTriple ++ (t.1.render ++ t.2.1.render ++ t.2.2.renderLast e)))) =
+      parsePnm (80 :: 54 :: (iw'.render ++ ih'.render ++ im'.render ++ ((px ++ [p]).flatMap pixelBytes ++ tail')))) ∧
+    (∀ (its : List Item) (cs : List UInt8) (it : Item) (c : UInt8),
+      List.Forall₂ (fun it c => it.Spells u8Max c.toNat) its cs → it.Spells u8Max c.toNat → cs.length + 1 = w * h →
+      parsePnm (80 :: 50 :: (iw.render ++ ih.render ++ im.render ++ (its.flatMap Item.render ++ it.renderLast e))) =
+      parsePnm (80 :: 53 :: (iw'.render ++ ih'.render ++ im'.render ++ ((cs ++ [c]) ++ tail')))) := by
+  refine ⟨?_, ?_⟩
+  · intro ts px t p hs hp hl
+    rw [p3_layout_ending iw ih im w h m sw sh sm ts px hs t p hp hl hwh e,
+      p6_layout iw' ih' im' w h m' sw' sh' sm' (px ++ [p]) (by simp; omega) hwh tail']
+  · intro its cs it c hs hp hl
+    rw [p2_layout_ending iw ih im w h m sw sh sm its cs hs it c hp hl hwh e,
+      p5_layout iw' ih' im' w h m' sw' sh' sm' (cs ++ [c]) (by simp; omega) hwh tail']
+
+-- non-vacuity: "P2 2 1 255 7 9" (last sample ends at EOF) and "P5 2 1 255\n" ++ [7, 9] are the same image
+example : parsePnm [80, 50, 32, 50, 32, 49, 32, 50, 53, 53, 10, 55, 32, 57] = .ok (.ok (imageView 2 1, [gray 7, gray 9])) := by
+  decide
+example : parsePnm [80, 53, 32, 50, 32, 49, 32, 50, 53, 53, 10, 7, 9] = .ok (.ok (imageView 2 1, [gray 7, gray 9])) := by
+  decide
+example : (Item.mk [] [55] 32).Spells u8Max (7 : UInt8).toNat ∧ (Item.mk [] [57] 32).Spells u8Max (9 : UInt8).toNat :=
+  ⟨⟨Gap.nil, by simp, by decide, by decide, by decide⟩, ⟨Gap.nil, by simp, by decide, by decide, by decide⟩⟩
+example : [55, 32, 57] = [Item.mk [] [55] 32].flatMap Item.render ++ (Item.mk [] [57] 32).renderLast .eof := by decide
+
 /-! ## Error branches: malformed input is an error of the documented kind, not a panic or a wrong image -/
 
 theorem triples_length (l : List UInt8) : (triples l).length = l.length / 3 := by
